@@ -127,7 +127,7 @@ def build_harness():
             os.makedirs(ISO, exist_ok=True)
             subprocess.run(["cp", "-r", HARNESS, hdir], check=True)
             for rel, old, new in (("Cargo.toml", 'path = "/repo"', 'path = "%s"' % REPO),
-                                  (".cargo/config.toml", "/verif/build/harness-target", os.path.join(ISO, "harness-target"))):
+                                  (".cargo/config.toml", "../build/harness-target", os.path.join(ISO, "harness-target"))):
                 p = os.path.join(hdir, rel)
                 t = open(p).read()
                 assert old in t, (p, old)
